@@ -484,6 +484,21 @@ def _run(R, M, vks, rng, quick):
 
     _histories(R, M, vks, rng, quick)
 
+    # ---- more than 65 536 entries (2^17): a size no map built entry by entry reaches in a quick run - encoded as 18 cells (both children of every fork are the same
+    # cell, all 2^17 keys present with the same value); every entry must come back, in ascending order, through the parse routes
+    if R.shard == 0:
+        c = rc.RC('00' + '10101010')
+        for i in range(17):
+            c = rc.RC('00', (c, c))
+        cell17 = bridge.to_lib(c, 'builder')
+        for rname, f in (('HashMap.parse', lambda: M.HashMap.parse(cell17.begin_parse(), 17, value_deserializer=lambda s_: s_.load_uint(8))),
+                         ('load_dict', lambda: M.Builder().store_dict(cell17).end_cell().begin_parse().load_dict(17, value_deserializer=lambda s_: s_.load_uint(8)))):
+            st, got = mon.call(f)
+            R.counters['oracle_evaluations'] += 1
+            R.count('dictionaries_beyond_65536_entries')
+            ok = st == 'ok' and isinstance(got, dict) and len(got) == 2 ** 17 and list(got)[:3] == [0, 1, 2] and list(got)[-1] == 2 ** 17 - 1 and set(got.values()) == {0xAA}
+            R.check(ok, 'large-dictionary-not-returned', f'{rname} of a dictionary with 2^17 entries ' + (f'raised {got!r}' if st == 'exc' else f'returned {len(got) if isinstance(got, dict) else got!r} entries'),
+                    {'entries': 2 ** 17, 'route': rname})
     # ---- keys that do not fit
     for w in [1, 2, 3, 7, 8, 9, 16, 32, 64, 248, 255, 256, 267, 1000]:
         good = sorted({rng.getrandbits(w) for _ in range(3)})
